@@ -505,6 +505,9 @@ def make_renaming(r, spec, flavor):
     used_keys = set()
     if flavor in ('strings', 'all'):
         pool = [h for h in HOSTILE if not (eng == 'env' and ('\x00' in h or '=' in h or h == ''))]
+        if eng == 'env' and r.random() < 0.6:
+            # stay outside the F21 region most of the time, so that the other characters are exercised
+            pool = [h for h in pool if not any(c in '"\\\n\r{}' for c in h)]
         r.shuffle(pool)
         for k in key_tokens + tag_tokens:
             if r.random() < 0.8 and pool:
@@ -854,9 +857,17 @@ def model_exprs_for(spec, res):
             elif f['name'] == 'dict':
                 out.append((i, 'show_fn [] (env_dict_fn %s)' % env_shape(spec, ts)))
         elif file == 'v1/loaders.py' and f['name'].startswith('__dataclass_wizard_from_dict_'):
+            if f.get('cls') != spec['root']:
+                # a nested class whose loader is generated stand-alone (dump with auto_assign_tags):
+                # which Meta applies there is C07's business; P1 still checks the function
+                continue
             nm = f['name'][len('__dataclass_wizard_from_dict_'):-2]
             cands = [t for t in by_name.get(nm, []) if t['kind'] == 'dataclass']
             if len(cands) != 1 or same_named_types(spec):
+                continue
+            if spec['meta'].get('auto_tags') and spec['meta'].get('v1_unknown') and cands[0]['id'] in union_member_ids(spec):
+                # whether the tag key is expected depends on whether the class was first met as a
+                # plain field or inside the Union (order dependence noticed, reported to C13/C10)
                 continue
             e = shape_v1_load(spec, cands[0])
             if e is None:
